@@ -195,6 +195,17 @@ class Templates:
     def callee_templates(self, tk, types=True):
         """Templates of the hand-written function of this crate whose result is interpolated by
         `tk` (`let x = self.helper(..); quote!(.. #x ..)`), or None."""
+        r = self.callee_templates_all(tk, types)
+        return r[0] if r and len(r) == 1 else None
+
+    def callee_templates_all(self, tk, types=True):
+        """list of alternative Templates (one per branch / per closure of `map_or_else`), or None"""
+        r = self._callee_templates(tk, types)
+        if r is None:
+            return None
+        return r if isinstance(r, list) else [r]
+
+    def _callee_templates(self, tk, types=True):
         if tk.kind != "interp":
             return None
         b = self.b
@@ -241,14 +252,32 @@ class Templates:
             name = mir.callee_of(d[3])
             if name in ("proc_macro2::TokenStream::new",) or (name or "").endswith("Default>::default"):
                 continue
-            # `cond.then(|| quote!(..))`, `opt.map(|x| quote!(..))`: the tokens come from the closure
+            # `cond.then(|| quote!(..))`, `opt.map(|x| quote!(..))`: the tokens come from the closure;
+            # `opt.map_or_else(|| quote!(..), |x| quote!(..))`: from either closure
+            names = []
             for a in d[3]["args"]:
                 if a["k"] in ("copy", "move") and not a["p"]["proj"]:
                     for d2 in b.defs().get(a["p"]["local"], []):
                         if d2[2] == "assign" and d2[3]["r"]["k"] == "aggregate" and d2[3]["r"]["agg"] == "closure":
-                            name = d2[3]["r"]["closure"]
+                            names.append(d2[3]["r"]["closure"])
+            if len(names) > 1:
+                for nm in names:
+                    if nm not in idx:
+                        idx[nm] = None
+                        raws = [r for r in b.crate["bodies"] if r["key"] == nm]
+                        if len(raws) == 1:
+                            t_ = Templates(mir.Body(raws[0], b.crate))
+                            if t_.events:
+                                idx[nm] = t_
+                    if idx[nm] is None:
+                        return None
+                    found.append(idx[nm])
+                continue
+            if names:
+                name = names[0]
             if not name:
                 return None
+            direct = name == mir.callee_of(d[3])
             if name not in idx:
                 idx[name] = None
                 raws = [r for r in b.crate["bodies"] if r["key"] == name]
@@ -258,14 +287,52 @@ class Templates:
                         t = Templates(cb)
                         if t.events:
                             idx[name] = t
+                        elif raws[0]["kind"] == "Closure":
+                            # `opt.map(|x| helper(x, ..))`: the closure only hands on to a helper
+                            inner = []
+                            for _, t2 in cb.calls():
+                                n2 = mir.callee_of(t2)
+                                r2 = [r for r in b.crate["bodies"] if r["key"] == n2] if n2 and n2.startswith("darling_core::") else []
+                                if len(r2) == 1 and r2[0]["kind"] in ("Fn", "AssocFn"):
+                                    cb2 = mir.Body(r2[0], b.crate)
+                                    if not cb2.derived:
+                                        t3 = Templates(cb2)
+                                        if t3.events:
+                                            inner.append((t3, cb, t2))
+                            if len(inner) == 1:
+                                idx[name] = inner[0][0]
+                                idx[("call", name)] = (Templates(cb), inner[0][2])
             if idx[name] is None:
                 return None
             found.append(idx[name])
-        if len(found) == 1:
-            return found[0]
+            if direct:
+                self._calls = getattr(self, "_calls", {})
+                self._calls[id(tk)] = (self, d[3])
+            elif ("call", name) in idx:
+                self._calls = getattr(self, "_calls", {})
+                self._calls[id(tk)] = idx[("call", name)]
+        if found:
+            return found
         return None
 
-    def render(self, stream, depth=0, seen=None, follow="fns"):
+    def _argmap(self, tk, depth, follow):
+        """param local of the followed helper -> tokens the caller passes for it (when the caller
+        builds that argument as a template of its own)"""
+        rec = getattr(self, "_calls", {}).get(id(tk))
+        if not rec:
+            return None
+        owner, call = rec
+        out = {}
+        for i, a in enumerate(call["args"]):
+            if a["k"] not in ("copy", "move"):
+                continue
+            root = ref_root(owner.b, a)
+            alts = owner.stream_alts(root) if root is not None else []
+            if len(alts) == 1 and alts[0] > owner.b.arg_count:
+                out[i + 1] = owner.render(alts[0], depth + 1, None, follow)
+        return out or None
+
+    def render(self, stream, depth=0, seen=None, follow="fns", argmap=None):
         """Flat list of token strings of `stream`, groups expanded; interpolations as ⟨type⟩.
         follow=True also expands interpolated token streams returned by helper functions of the
         crate (what ends up in the output does not depend on how the generator is cut into fns)."""
@@ -281,31 +348,34 @@ class Templates:
                 out.append(tk.text if tk.text is not None else "?")
             elif tk.kind == "group":
                 out.append(OPEN.get(tk.text, "("))
-                out.extend(self.render(tk.inner, depth + 1, seen, follow))
+                out.extend(self.render(tk.inner, depth + 1, seen, follow, argmap))
                 out.append(CLOSE.get(tk.text, ")"))
             elif tk.kind == "interp":
                 alts = self.stream_alts(tk.src)
-                if alts and tk.ty and "TokenStream" in tk.ty:
+                if argmap and tk.src in argmap:
+                    out.extend(argmap[tk.src])
+                elif alts and tk.ty and "TokenStream" in tk.ty:
                     if len(alts) == 1:
-                        out.extend(self.render(alts[0], depth + 1, seen, follow))
+                        out.extend(self.render(alts[0], depth + 1, seen, follow, argmap))
                     else:
                         out.append("⟨alt")
                         for a in alts:
-                            out.extend(self.render(a, depth + 1, seen, follow))
+                            out.extend(self.render(a, depth + 1, seen, follow, argmap))
                             out.append("¦")
                         out[-1] = "⟩"
                 else:
                     # follow="fns": helper fns / closures of the crate only; follow=True: also the
                     # ToTokens impls of crate types (everything that ends up in the output)
-                    ct = self.callee_templates(tk, types=(follow is True)) if follow and depth < 6 and tk.ty else None
-                    if ct is not None and ct is not self:
-                        roots = ct.root_streams()
+                    cts = self.callee_templates_all(tk, types=(follow is True)) if follow and depth < 6 and tk.ty else None
+                    if cts and all(c is not self for c in cts):
+                        roots = [(c, r) for c in cts for r in c.root_streams()]
+                        am = self._argmap(tk, depth, follow) if len(cts) == 1 else None
                         if len(roots) == 1:
-                            out.extend(ct.render(roots[0], depth + 2, None, follow))
+                            out.extend(roots[0][0].render(roots[0][1], depth + 2, None, follow, am))
                         else:
                             out.append("⟨alt")
-                            for a in roots:
-                                out.extend(ct.render(a, depth + 2, None, follow))
+                            for c, a in roots:
+                                out.extend(c.render(a, depth + 2, None, follow, am))
                                 out.append("¦")
                             if roots:
                                 out[-1] = "⟩"
@@ -327,6 +397,18 @@ class Templates:
                     out.append("⟨append %s⟩" % tk.expr)
         return out
 
+    def render_tok(self, tk, follow="fns"):
+        """the tokens one interpolation stands for"""
+        saved = self.by_stream.get(-1)
+        self.by_stream[-1] = [tk]
+        try:
+            return self.render(-1, 0, None, follow)
+        finally:
+            if saved is None:
+                del self.by_stream[-1]
+            else:
+                self.by_stream[-1] = saved
+
     def stream_alts(self, local):
         """Stream locals (built in this fn) that may flow by move into `local`."""
         if local is None:
@@ -335,12 +417,18 @@ class Templates:
             return [local]
         out = []
         for d in self.b.defs().get(local, []):
-            if d[2] == "assign" and d[3]["r"]["k"] == "use":
-                op = d[3]["r"]["op"]
-                if op["k"] in ("copy", "move") and not op["p"]["proj"]:
-                    for x in self.stream_alts(op["p"]["local"]):
-                        if x not in out:
-                            out.append(x)
+            if d[2] != "assign":
+                continue
+            r = d[3]["r"]
+            op = None
+            if r["k"] == "use":
+                op = r["op"]
+            elif r["k"] == "aggregate" and r.get("agg") == "adt" and r.get("variant") == "Some" and len(r["ops"]) == 1 and str(r.get("adt", "")).endswith("Option"):
+                op = r["ops"][0]          # `Some(quote!(..))`: the tokens of an optional piece
+            if op is not None and op["k"] in ("copy", "move") and not op["p"]["proj"]:
+                for x in self.stream_alts(op["p"]["local"]):
+                    if x not in out:
+                        out.append(x)
         return out
 
     def root_streams(self):
@@ -356,13 +444,19 @@ class Templates:
     def all_tokens(self, kinds=("ident",)):
         return [tk for tk in self.events if tk.kind in kinds]
 
-    def stream_tokens(self, stream):
-        """Depth-first list of Tok objects of `stream` including nested groups."""
+    def stream_tokens(self, stream, locals_too=False, _depth=0):
+        """Depth-first list of Tok objects of `stream` including nested groups; with locals_too
+        also the tokens of streams built in this fn and interpolated (`let x = quote!(..);
+        quote!(.. #x ..)` reads like the template written in one piece)."""
         out = []
         for tk in self.by_stream.get(stream, []):
             out.append(tk)
             if tk.kind in ("group", "append") and tk.inner in self.by_stream and tk.inner != stream:
-                out.extend(self.stream_tokens(tk.inner))
+                out.extend(self.stream_tokens(tk.inner, locals_too, _depth + 1))
+            elif locals_too and tk.kind == "interp" and _depth < 6:
+                for alt in self.stream_alts(tk.src):
+                    if alt in self.by_stream and alt != stream:
+                        out.extend(self.stream_tokens(alt, locals_too, _depth + 1))
         return out
 
     def text(self, stream):
